@@ -181,3 +181,11 @@ Example merge_add_same_int_nonvacuous :
   let b := set_sgn (set_int (set_bits mkQuantizedBits 4) 2) true in
   merge_add [a; b] = fixed_adder a b /\ frac_bits (merge_add [a; b]) = 3 /\ q_int (merge_add [a; b]) = 3 /\ q_bits (merge_add [a; b]) = 7.
 Proof. vm_compute. repeat split; reflexivity. Qed.
+
+(* merge Add is sized for TWO operands whatever their number: with three the sum of the largest values overflows *)
+Theorem merge_add_three_operands_refuted :
+  exists a k, code_ok a k /\ frac_bits (merge_add [a; a; a]) = frac_bits a /\ ~ code_ok (merge_add [a; a; a]) (k + k + k).
+Proof.
+  exists (set_sgn (set_int (set_bits mkQuantizedBits 4) 3) true), 7.
+  vm_compute. repeat split; try (intros; discriminate). intros [_ H]. apply H. reflexivity.
+Qed.
